@@ -66,6 +66,8 @@ func Runner() (*hist.Runner, error) {
 	if err := sharedRunner.Recycle(); err != nil {
 		return nil, err
 	}
+	sharedRunner.W.Bind()
+	sharedRunner.W.DBW.Before, sharedRunner.W.DBW.After = nil, nil
 	return sharedRunner, nil
 }
 
